@@ -20,6 +20,8 @@ FRAGMENTS = [
     ("DriftWake", "gen_drift"),
     ("ApplyTo", "gen_applyto"),
     ("Moments", "gen_moments"),
+    ("KickApply", "gen_kickapply"),
+    ("UpdateSM", "gen_updatesm"),
 ]
 
 
